@@ -10,6 +10,24 @@
 
 namespace verif
 {
+#ifdef VERIF_C08_ALONGSTEP
+// The same history checker registered for C08 with every problem forced into
+// a uniform-field along-step (PropagationApplier + FieldPropagator inside the
+// stepping loop, incl. looping tracks in near-vacuum)
+char const* const kPropertyId = "C08";
+char const* const kHarness = "c08_alongstep";
+size_t const kMaxBytes = 660;
+char const* const kRule
+    = "problems as for C01 forced into a uniform-field along-step (70 % "
+      "without MSC; |B| log-uniform 0.05-10 T, random direction; 60 % with a "
+      "near-vacuum first material so that e+- loop and are abandoned by the "
+      "looping threshold); the C05 history checker runs on the step stream: "
+      "post(k) == pre(k+1), 0 < length <= pre-step limit, chord <= length + "
+      "documented field slack, displacement along B = length x pitch cosine "
+      "(gyroradius > 0.05 cm), volumes == independent point location, volume "
+      "changes only on boundary steps; non-trivial = >= 5 charged field steps "
+      "checked against the pitch relation";
+#else
 char const* const kPropertyId = "C05";
 char const* const kHarness = "c05_steps";
 size_t const kMaxBytes = 640;
@@ -21,8 +39,11 @@ char const* const kRule
       "post(k) == pre(k+1) bitwise, time/energy monotone, dt = len/v(E_pre), "
       "0 < length <= limit, displacement <= length, volumes == independent "
       "point location, volume changes only on boundary steps, status moves "
-      "forward; non-trivial = a track with >= 3 steps including a boundary "
+      "forward; straight steps move by length x direction, field steps "
+      "(no MSC, gyroradius > 0.05 cm) move by length x pitch cosine along B; "
+      "non-trivial = a track with >= 3 steps including a boundary "
       "crossing and a physics-limited step";
+#endif
 
 void setup()
 {
@@ -96,7 +117,30 @@ Verdict run_case(Choices& c, CaseLog& log)
     };
     GenOptions opt;
     Problem p;
+#ifdef VERIF_C08_ALONGSTEP
+    Verdict v = setup_problem(c, log, opt, p, hooks, {}, [&](SimSpec& s) {
+        if (!has_field(s.along))
+        {
+            s.along = c.boolean(0.7) ? AlongStep::uniform_field
+                                     : AlongStep::uniform_field_msc;
+            double dir[3];
+            c.unit_vector(dir);
+            double b = c.log_uniform(0.05, 10);
+            for (int k = 0; k < 3; ++k)
+                s.field[k] = b * dir[k];
+            log.mix(b);
+        }
+        if (c.boolean(0.6))
+        {
+            s.materials[0].rel_density = c.log_uniform(1e-8, 1e-4);
+            s.materials[0].number_density = 8.5e22 * s.materials[0].rel_density;
+            log.mix(s.materials[0].rel_density);
+            log.label("near-vacuum");
+        }
+    });
+#else
     Verdict v = setup_problem(c, log, opt, p, hooks);
+#endif
     if (v != Verdict::pass)
         return v;
     snaps->call = &p.w->rec->call;
@@ -115,7 +159,8 @@ Verdict run_case(Choices& c, CaseLog& log)
     }
     GeoFixture& fix = *p.src.fix;
     auto events = split_events(w.rec->steps);
-    long joined = 0, located = 0, rich_tracks = 0, limit_checked = 0;
+    long joined = 0, located = 0, rich_tracks = 0, limit_checked = 0,
+         n_straight = 0, n_helix = 0;
     double c_light = constants::c_light;
     // Known finding F41: a step that is NOT limited by a boundary but ends
     // within the geometry tolerance of a surface (the physics limit ties with
@@ -275,6 +320,80 @@ Verdict run_case(Choices& c, CaseLog& log)
                         return fail(m.str());
                     }
                 }
+                // the reported length is the length actually travelled:
+                // straight steps (neutral, or charged without field and MSC)
+                // move by length * direction; in a uniform field without MSC
+                // the displacement ALONG the field is length * cos(pitch)
+                {
+                    bool charged = w.pdg[s.particle] != 22;
+                    double dx[3];
+                    for (int a = 0; a < 3; ++a)
+                        dx[a] = s.post.pos[a] - s.pre.pos[a];
+                    bool straight = !charged
+                                    || (!has_field(p.spec.along)
+                                        && !has_msc(p.spec.along));
+                    if (straight && std::isfinite(s.length))
+                    {
+                        double err = 0;
+                        for (int a = 0; a < 3; ++a)
+                            err = std::max(err,
+                                           std::fabs(dx[a]
+                                                     - s.length * s.pre.dir[a]));
+                        double tol = 1e-9 * s.length
+                                     + 1e-12 * (fix.scale + std::fabs(s.pre.pos[0])
+                                                + std::fabs(s.pre.pos[1])
+                                                + std::fabs(s.pre.pos[2]));
+                        if (err > tol)
+                        {
+                            std::ostringstream m;
+                            m.precision(15);
+                            m << id.str() << ": a straight step of length "
+                              << s.length << " moved the track by (" << dx[0]
+                              << ", " << dx[1] << ", " << dx[2]
+                              << "), not by length x direction";
+                            return fail(m.str());
+                        }
+                        ++n_straight;
+                    }
+                    else if (charged && has_field(p.spec.along)
+                             && !has_msc(p.spec.along))
+                    {
+                        double b2 = 0;
+                        for (int a = 0; a < 3; ++a)
+                            b2 += p.spec.field[a] * p.spec.field[a];
+                        double bmag = std::sqrt(b2);  // tesla
+                        double e = s.pre.energy;
+                        double mom = std::sqrt(e * (e + 2 * mass));  // MeV/c
+                        double radius = bmag > 0 ? mom / (2.99792458 * bmag)
+                                                 : INFINITY;  // cm
+                        double upar = 0, dpar = 0;
+                        for (int a = 0; a < 3 && bmag > 0; ++a)
+                        {
+                            upar += s.pre.dir[a] * p.spec.field[a] / bmag;
+                            dpar += dx[a] * p.spec.field[a] / bmag;
+                        }
+                        // (for gyroradii below ~0.05 cm a substep may span
+                        // many turns and the integrator's pitch error is not
+                        // bounded by the driver tolerances: not judged)
+                        if (bmag > 0 && radius > 0.05 && std::fabs(upar) > 0.05)
+                        {
+                            double tol = 0.01 * s.length + 1e-4;
+                            if (!(std::fabs(dpar - s.length * upar) <= tol))
+                            {
+                                std::ostringstream m;
+                                m.precision(12);
+                                m << id.str() << ": step length " << s.length
+                                  << " with pitch cosine " << upar
+                                  << " but the displacement along the field is "
+                                  << dpar << " (gyroradius " << radius
+                                  << " cm): the reported length is not the "
+                                     "length travelled";
+                                return fail(m.str());
+                            }
+                            ++n_helix;
+                        }
+                    }
+                }
                 // pre-step physics limit
                 auto it = snaps->by_call_slot.find({s.call, s.slot});
                 if (it == snaps->by_call_slot.end()
@@ -382,6 +501,23 @@ Verdict run_case(Choices& c, CaseLog& log)
                             }
                         }
                     }
+                    if (judge && on_bnd)
+                    {
+                        // a sliver thinner than the tolerance right behind the
+                        // boundary: the oracle's clusters merge its two faces,
+                        // the navigator (exact arithmetic) may report it.
+                        // Consistent if the point just (0.01 delta) ahead is
+                        // in the reported volume.
+                        geo::Path near_p = geo::locate(
+                            fix.model, geo::along(x, d, dl * 0.01L), dl * 1e-4L);
+                        if (!near_p.overlap && !near_p.nowhere
+                            && !near_p.outside()
+                            && leaf_volume(fix.model, near_p) == s.pre.volume)
+                        {
+                            judge = false;
+                            log.label("sliver-behind-boundary");
+                        }
+                    }
                     if (judge && !pp.ambiguous && !pp.overlap && !pp.nowhere
                         && pp.outside() && !on_bnd && s.pre.volume >= 0)
                     {
@@ -448,12 +584,18 @@ Verdict run_case(Choices& c, CaseLog& log)
     log.count("joined_step_pairs", joined);
     log.count("located_points", located);
     log.count("limit_checked", limit_checked);
+    log.count("straight_steps_checked", n_straight);
+    log.count("helix_pitch_steps_checked", n_helix);
     log.count("rich_tracks", rich_tracks);
     if (has_msc(p.spec.along))
         log.label("msc");
     if (has_field(p.spec.along))
         log.label("field");
+#ifdef VERIF_C08_ALONGSTEP
+    log.nontrivial = n_helix >= 5;
+#else
     log.nontrivial = rich_tracks > 0;
+#endif
     return Verdict::pass;
 }
 
